@@ -427,6 +427,17 @@ func (r *region) seq() {
 					facts = append(facts, pn+" = "+abbreviate(ws))
 				}
 			}
+			// the per-item call must run for every job the worker receives
+			if l := ssau.InnermostLoop(r.ev.loops(wc.call.Parent()), wc.call.Block()); l != nil && rangeChanLoop(l) != nil {
+				for _, latch := range l.Latch {
+					if !wc.call.Block().Dominates(latch) {
+						problems = append(problems, callee.Name()+" is not executed for every received job (a path through the job loop skips it)")
+					}
+				}
+				facts = append(facts, "executed once for every received job")
+			} else {
+				problems = append(problems, callee.Name()+" is not called directly in the worker's `range jobs` loop")
+			}
 			rule := "SEQ-2"
 			if r.isMerge() {
 				rule = "SEQ-3"
@@ -732,6 +743,31 @@ func (k *checker) axis1(sp *ssa.Package, out sink) {
 						slots = append(slots, slot{x.Val, ax, "VectorInt field " + ax.String(), in})
 					}
 				}
+			}
+		})
+		// AXIS-2: both operands of a comparison carry the same single axis
+		ncmp := 0
+		ssau.AllInstrs(fn, func(in ssa.Instruction) {
+			b, ok := in.(*ssa.BinOp)
+			if !ok {
+				return
+			}
+			switch b.Op {
+			case token.LSS, token.LEQ, token.GTR, token.GEQ, token.EQL, token.NEQ:
+			default:
+				return
+			}
+			tx, ty := af.tags(b.X), af.tags(b.Y)
+			single := func(t axisSet) bool { return t == axX || t == axY || t == axZ }
+			if !single(tx) || !single(ty) {
+				return
+			}
+			ncmp++
+			construct := fmt.Sprintf("%s→compare#%d", name, ncmp)
+			if tx != ty {
+				out.violate("AXIS-2", construct, p.Pos(ssau.PosOf(in)), "comparison mixes axes: left operand derives from "+tx.String()+", right operand from "+ty.String())
+			} else {
+				out.hold("AXIS-2", construct, p.Pos(ssau.PosOf(in)), "both operands derive from "+tx.String())
 			}
 		})
 		// one obligation per (function, sink kind, call) — keyed by ordinal of the sink kind in the function
